@@ -237,6 +237,9 @@ const void *sys_map_lookup_elem(void *map, const void *key) { return lookup(find
 
 void maps_set_current(struct verif_task t) { current_task = t; }
 
+/* the loader, not the object file, decides how large the kernel creates a map */
+void maps_set_max_entries(void *map, __u32 max_entries) { find_map(map)->max_entries = max_entries; }
+
 void maps_info(void *map, __u32 *type, __u32 *key_size, __u32 *value_size, __u32 *max_entries)
 {
     struct vmap *m = find_map(map);
